@@ -184,18 +184,21 @@ fn c13_stash_init() {
 //     1 + p = number of cookies the server is asked for = min(missing, fit) with
 //     missing = 8 - (cookies left after taking one) and fit = floor(724 / max(L,1)) (the packet-size
 //     limit the implementation documents: 1024-byte buffer minus 300 bytes of margin);
-//   * cookie and placeholders are in the authenticated part, under the c2s key;
+//   * cookie and placeholders are in the authenticated part;
 //   * if that number is 0 (only when L > 724) the source resets instead.
 //
-// c13_poll_struct_*: all stash fill levels; observes the packet STRUCTURE handed to the encoder
-// (`NtpPacket::serialize` replaced by a recorder, see common.rs) because encoding many extension
-// fields symbolically is out of reach. c13_poll_wire_*: the real encoder, stash fill 6..=8 (at most
-// two placeholders), same claims checked on the datagram bytes (RFC 7822/8915 framing).
+// Decided at the two function boundaries of the real code (the whole chain in one query does not
+// fit: see common.rs):
+//   c13_poll_timer_*  : real `NtpSource::handle_timer`, every stash fill and cookie length 0..=64:
+//                       which cookie and which count it hands to `NtpPacket::nts_poll_message{,_v5}`
+//                       (recorded), what happens to the stash, what the pending identifier is;
+//   c13_poll_message_*: real `NtpPacket::nts_poll_message{,_v5}` for every cookie (<= 32 bytes,
+//                       symbolic content) and every count 1..=8: the fields of the packet it builds.
 
 struct PollCase {
     valid: usize,
     l: usize,
-    content: [u8; 32],
+    content: [u8; 64],
     jc: usize,
     jp: usize,
     desired: i8,
@@ -203,7 +206,7 @@ struct PollCase {
     tries: usize,
 }
 
-fn any_poll_case(valid_lo: usize, lmax: usize) -> PollCase {
+fn any_poll_case() -> PollCase {
     let c = PollCase {
         valid: kani::any(),
         l: kani::any(),
@@ -214,51 +217,57 @@ fn any_poll_case(valid_lo: usize, lmax: usize) -> PollCase {
         reach: kani::any(),
         tries: kani::any(),
     };
-    kani::assume(c.valid <= MAX_COOKIES && (c.valid == 0 || c.valid >= valid_lo));
-    kani::assume(c.l <= lmax && lmax <= 32);
-    kani::assume(c.jc < 32);
+    kani::assume(c.valid <= MAX_COOKIES);
+    kani::assume(c.l <= 64);
+    kani::assume(c.jc < 64);
     kani::assume(c.desired >= 4 && c.desired <= 10);
     kani::assume(c.tries <= 4);
     c
 }
 
-/// runs the poll; returns the actions if a request was sent (None after checking the other outcomes)
-fn run_poll(c: &PollCase, v5: bool) -> Option<(NtpSource<RecCtl>, Vec<u8>)> {
+fn c13_poll_timer_body(v5: bool) {
+    stubs::symbolic_clock();
+    sym_rng();
+    let c = any_poll_case();
+    unsafe {
+        PM_JC = c.jc;
+    }
     let mut oldest = c.content.to_vec();
     oldest.truncate(c.l);
-    let stash = stash0(c.valid, oldest);
-    let nts = sh::nts_data_with_stash(stash, c2s(), s2c());
+    let nts = sh::nts_data_with_stash(stash0(c.valid, oldest), c2s(), s2c());
     let version = if v5 { ProtocolVersion::V5 } else { ProtocolVersion::V4 };
     let mut src = new_source(version, SourceConfig::default(), poll(c.desired), Some(nts));
     sh::set_reach(&mut src, c.reach);
     sh::set_tries(&mut src, c.tries);
 
     let (acts, n) = collect_actions(src.handle_timer());
+    check_poll_timer(&mut src, &acts, n, &c, v5);
+    // the source is not dropped (dropping the 8-slot stash is a loop of 8 = a larger unwind bound)
+    core::mem::forget(src);
+    core::mem::forget(acts);
+}
 
+fn check_poll_timer(src: &mut NtpSource<RecCtl>, acts: &[Option<NtpSourceAction>; 3], n: usize, c: &PollCase, v5: bool) {
     if c.reach == 0 && c.tries >= 3 {
         assert!(n == 1 && matches!(acts[0], Some(NtpSourceAction::Reset)), "unreachable source resets");
-        assert!(sh::state(&src).cookies == Some(c.valid), "no cookie is consumed when no request is sent");
-        return None;
+        assert!(sh::state(src).cookies == Some(c.valid), "no cookie is consumed when no request is sent");
+        assert!(unsafe { PM_CALLS == 0 });
+        return;
     }
     if c.valid == 0 {
         assert!(n == 1 && matches!(acts[0], Some(NtpSourceAction::Reset)), "no cookie left: reset, nothing sent");
-        return None;
+        assert!(unsafe { PM_CALLS == 0 });
+        return;
     }
     assert!(n == 2, "send + timer");
+    assert!(matches!(acts[0], Some(NtpSourceAction::Send(_))), "first action is Send");
     assert!(matches!(acts[1], Some(NtpSourceAction::SetTimer(_))), "second action is SetTimer");
-    let mut acts = acts;
-    let p = match acts[0].take() {
-        Some(NtpSourceAction::Send(p)) => p,
-        _ => {
-            assert!(false, "first action is Send");
-            return None;
-        }
-    };
+
     // stash afterwards: one fewer, former 2nd.. cookies in order, the used cookie is gone
     let left = c.valid - 1;
-    assert!(sh::state(&src).cookies == Some(left), "exactly one cookie was consumed");
+    assert!(sh::state(src).cookies == Some(left), "exactly one cookie was consumed");
     {
-        let nd = sh::nts_mut(&mut src).unwrap();
+        let nd = sh::nts_mut(src).unwrap();
         let i: usize = c.jp % MAX_COOKIES; // universally quantified position
         if i < left {
             let ck = sh::nts_peek_cookie(nd, i).unwrap();
@@ -266,140 +275,113 @@ fn run_poll(c: &PollCase, v5: bool) -> Option<(NtpSource<RecCtl>, Vec<u8>)> {
         }
         assert!(sh::nts_peek_cookie(nd, left).is_none());
     }
-    Some((src, p))
-}
-
-fn asked(c: &PollCase) -> usize {
-    let missing = MAX_COOKIES - (c.valid - 1);
+    let missing = MAX_COOKIES - left;
     let fit = 724 / core::cmp::max(c.l, 1);
-    core::cmp::min(missing, fit)
-}
-
-fn c13_poll_struct_body(v5: bool) {
-    stubs::symbolic_clock();
-    sym_rng();
-    let c = any_poll_case(1, 32);
+    let asked = core::cmp::min(missing, fit);
     unsafe {
-        REC_JC = c.jc;
-    }
-    let Some((src, _p)) = run_poll(&c, v5) else { return };
-    unsafe {
-        assert!(REC_CALLS == 1, "one request is encoded");
-        assert!(REC_N_COOKIE == 1, "exactly one cookie per request");
-        assert!(REC_COOKIE_LEN == c.l, "the cookie is sent whole");
+        assert!(PM_CALLS == 1 && PM_V5 == v5, "one request is built, for the source's protocol version");
+        assert!(PM_COOKIE_LEN == c.l, "the cookie is handed over whole");
         if c.jc < c.l {
-            assert!(REC_COOKIE_BYTE == c.content[c.jc], "cookie sent = oldest cookie of the stash (every byte)");
+            assert!(PM_COOKIE_BYTE == c.content[c.jc], "cookie sent = oldest cookie of the stash (every byte)");
         }
-        assert!(1 + REC_N_PH == asked(&c), "asks for exactly as many new cookies as are missing (limited by packet size)");
-        assert!(REC_PH_LEN_MISMATCH == 0, "every placeholder is as long as the cookie and follows it");
-        assert!(REC_N_UID == 1 && REC_UID_LEN == 32, "one 32-byte unique identifier");
-        assert!(REC_N_ENC == 0 && REC_N_UNTRUSTED == 0, "identifier, cookie and placeholders are all in the authenticated part");
-        assert!(REC_HAS_KEY && REC_KEY == C2S_ID, "request authenticated under the c2s key");
-        assert!(REC_N_OTHER == if v5 { 2 } else { 0 }, "nothing else but the NTPv5 draft-id and reference-id request fields");
-        // the pending request identifier is the one put on the wire (C07 starts from such a state)
-        match sh::pending(&src) {
-            Some((_, Some(uid), _)) => assert!(eq_words(&uid, &REC_UID, 32), "pending unique identifier = the one sent"),
+        assert!(PM_NEW_COOKIES as usize == asked, "asks for exactly as many new cookies as are missing (limited by packet size)");
+        assert!(PM_POLL == c.desired, "poll exponent handed over");
+        // the pending request identifier is the one of the request (C07 starts from such a state)
+        match sh::pending(src) {
+            Some((_, Some(uid), _)) => assert!(eq_words(&uid, &PM_UID, 32), "pending unique identifier = the one of the request"),
             _ => assert!(false, "an NTS request leaves a pending identifier with a uid"),
         }
-        kani::cover!(c.valid == 8 && REC_N_PH == 0, "full stash: ask for one");
-        kani::cover!(c.valid == 1 && REC_N_PH == 7, "last cookie: ask for eight");
-        kani::cover!(c.valid == 3 && c.l == 32 && c.content[31] == 0xAA, "cookie content symbolic");
+        kani::cover!(c.valid == 8 && PM_NEW_COOKIES == 1, "full stash: ask for one");
+        kani::cover!(c.valid == 1 && PM_NEW_COOKIES == 8, "last cookie: ask for eight");
+        kani::cover!(c.valid == 3 && c.l == 64 && c.content[63] == 0xAA, "cookie content symbolic");
+        kani::cover!(c.l == 0, "empty cookie");
     }
 }
 
 nharness! {
-    #[kani::unwind(14)]
-    #[kani::stub(ntp_proto::NtpPacket::serialize, crate::common::serialize_recorder)]
-    fn c13_poll_struct_v4() {
-        c13_poll_struct_body(false);
+    #[kani::unwind(6)]
+    #[kani::stub(ntp_proto::NtpPacket::nts_poll_message, crate::common::nts_poll_message_rec)]
+    #[kani::stub(ntp_proto::NtpPacket::nts_poll_message_v5, crate::common::nts_poll_message_v5_rec)]
+    fn c13_poll_timer_v4() {
+        c13_poll_timer_body(false);
     }
 }
 
 nharness! {
-    #[kani::unwind(14)]
-    #[kani::stub(ntp_proto::NtpPacket::serialize, crate::common::serialize_recorder)]
-    fn c13_poll_struct_v5() {
-        c13_poll_struct_body(true);
+    #[kani::unwind(6)]
+    #[kani::stub(ntp_proto::NtpPacket::nts_poll_message, crate::common::nts_poll_message_rec)]
+    #[kani::stub(ntp_proto::NtpPacket::nts_poll_message_v5, crate::common::nts_poll_message_v5_rec)]
+    fn c13_poll_timer_v5() {
+        c13_poll_timer_body(true);
     }
 }
 
-fn c13_poll_wire_body(v5: bool) {
-    stubs::symbolic_clock();
+fn c13_poll_message_body(v5: bool) {
+    use ntp_proto::verif::packet as ph;
+    use ntp_proto::verif::packet::extension_fields::ExtField;
     sym_rng();
-    let c = any_poll_case(6, 32);
-    let Some((src, p)) = run_poll(&c, v5) else { return };
-    let l = c.l;
-    let ef_wire = core::cmp::max((l + 3) / 4 * 4 + 4, 16);
-    // walk the extension fields of the request (type, length incl. header, padded to 4)
-    let mut off = 48usize;
+    let l: usize = kani::any();
+    kani::assume(l <= 32);
+    let content: [u8; 32] = kani::any();
+    let n: u8 = kani::any();
+    kani::assume(n >= 1 && n <= 8);
+    let pollv: i8 = kani::any();
+    let jc: usize = kani::any();
+    kani::assume(jc < 32);
+
+    let (p, id) = if v5 { NtpPacket::nts_poll_message_v5(&content[..l], n, poll(pollv)) } else { NtpPacket::nts_poll_message(&content[..l], n, poll(pollv)) };
+
+    let auth = ph::packet_authenticated(&p);
+    assert!(ph::packet_encrypted(&p).is_empty() && ph::packet_untrusted(&p).is_empty(), "all request fields are in the authenticated part");
+    assert!(auth.len() == 1 + n as usize + if v5 { 1 } else { 0 }, "identifier + cookie + placeholders (+ draft id)");
+    let (_, uid) = ph::request_identifier_parts(id);
+    match (&auth[0], uid) {
+        (ExtField::UniqueIdentifier(u), Some(want)) => assert!(u.len() == 32 && eq_words(u, &want, 32), "first field: the unique identifier that is remembered"),
+        _ => assert!(false, "first field is the unique identifier"),
+    }
+    match &auth[1] {
+        ExtField::NtsCookie(ck) => {
+            assert!(ck.len() == l, "second field: the cookie, whole");
+            if jc < l {
+                assert!(ck[jc] == content[jc], "cookie content unchanged (every byte)");
+            }
+        }
+        _ => assert!(false, "second field is the cookie"),
+    }
+    let mut n_ph = 0usize;
     let mut n_cookie = 0usize;
-    let mut n_placeholder = 0usize;
-    let mut n_uid = 0usize;
-    let mut n_nts = 0usize;
-    let mut guard = 0;
-    while off + 4 <= p.len() && guard < 7 {
-        let ty = be16(&p, off);
-        let len = be16(&p, off + 2);
-        let wire = (len + 3) / 4 * 4;
-        assert!(len >= 4 && off + wire <= p.len(), "well-formed extension field");
-        if !v5 {
-            assert!(len % 4 == 0, "NTPv4 extension field lengths are multiples of 4");
+    let mut i = 2;
+    while i < 10 {
+        if i < auth.len() {
+            match &auth[i] {
+                ExtField::NtsCookiePlaceholder { cookie_length } => {
+                    n_ph += 1;
+                    assert!(*cookie_length as usize == l, "placeholder as long as the cookie");
+                }
+                ExtField::NtsCookie(_) => n_cookie += 1,
+                ExtField::DraftIdentification(_) => assert!(v5 && i == auth.len() - 1, "draft identification last (NTPv5 only)"),
+                _ => assert!(false, "no other fields"),
+            }
         }
-        let body = &p[off + 4..off + wire];
-        if ty == 0x0204 {
-            n_cookie += 1;
-            assert!(n_nts == 0, "cookie precedes the authenticator (is authenticated)");
-            assert!(wire == ef_wire, "cookie field: cookie padded to a word, at least 16 bytes");
-            if c.jc < l {
-                assert!(body[c.jc] == c.content[c.jc], "cookie sent = oldest cookie of the stash (every byte)");
-            }
-            if c.jp >= l && c.jp < body.len() {
-                assert!(body[c.jp] == 0, "padding is zero");
-            }
-        } else if ty == 0x0304 {
-            n_placeholder += 1;
-            assert!(n_nts == 0, "placeholder precedes the authenticator");
-            assert!(wire == ef_wire, "placeholder as long as the cookie field");
-            if c.jp < body.len() {
-                assert!(body[c.jp] == 0, "placeholder body is zero");
-            }
-        } else if ty == 0x0104 {
-            n_uid += 1;
-            assert!(off == 48 && len == 36, "unique identifier comes first");
-        } else if ty == 0x0404 {
-            n_nts += 1;
-        }
-        off += wire;
-        guard += 1;
+        i += 1;
     }
-    assert!(off == p.len(), "extension fields tile the packet");
-    assert!(n_cookie == 1, "exactly one cookie per request");
-    assert!(n_uid == 1 && n_nts == 1, "unique identifier and authenticator present");
-    assert!(1 + n_placeholder == asked(&c), "asks for exactly as many new cookies as are missing (limited by packet size)");
-    assert!(unsafe { ENC_CALLS == 1 && ENC_KEY == C2S_ID }, "request authenticated under the c2s key");
-    assert!(unsafe { ENC_PT_LEN == 0 }, "nothing is encrypted in a request");
-    let fixed = if v5 { 48 + 36 + 28 + 20 + 40 } else { 48 + 36 + 40 };
-    assert!(p.len() == fixed + asked(&c) * ef_wire, "datagram size = fixed part + one field per requested cookie");
-    match sh::pending(&src) {
-        Some((_, Some(uid), _)) => assert!(eq_words(&uid, &p[52..84], 32), "pending unique identifier = the one on the wire"),
-        _ => assert!(false, "an NTS request leaves a pending identifier with a uid"),
-    }
-    kani::cover!(c.valid == 8 && n_placeholder == 0, "full stash: ask for one");
-    kani::cover!(c.valid == 6 && n_placeholder == 2, "ask for three");
-    kani::cover!(l == 32 && c.content[0] == 0xAA, "cookie content symbolic");
-    kani::cover!(l == 0, "empty cookie");
+    assert!(n_cookie == 0, "exactly one cookie per request");
+    assert!(1 + n_ph == n as usize, "one field per requested cookie");
+    assert!(p.poll() == poll(pollv), "poll exponent in the header");
+    kani::cover!(n == 8 && l == 32 && content[31] == 0x55, "eight cookies requested");
+    kani::cover!(n == 1 && l == 0, "empty cookie, no placeholder");
 }
 
 nharness! {
-    #[kani::unwind(8)]
-    fn c13_poll_wire_v4() {
-        c13_poll_wire_body(false);
+    #[kani::unwind(12)]
+    fn c13_poll_message_v4() {
+        c13_poll_message_body(false);
     }
 }
 
 nharness! {
-    #[kani::unwind(8)]
-    fn c13_poll_wire_v5() {
-        c13_poll_wire_body(true);
+    #[kani::unwind(12)]
+    fn c13_poll_message_v5() {
+        c13_poll_message_body(true);
     }
 }
